@@ -423,6 +423,13 @@ func (w *world) judge(o obs) (fs []finding, outcomes []string) {
 	}
 
 	if !o.fromCache {
+		// (iv) a verification key is not used past its certificate's NotAfter, wherever the key came from this time
+		if o.h.ok && mech == "jwt-keys" && o.h.validEnd != nil && now.After(*o.h.validEnd) {
+			add("verification-key-used-past-the-expiry-of-its-certificate",
+				fmt.Sprintf("at T0+%ds (certificate expired at T0%+ds, not answered from the cache): %s", w.off,
+					int(o.h.validEnd.Sub(env.T0)/time.Second), o.h.what))
+		}
+
 		if o.h.ok {
 			stored := false
 
@@ -749,7 +756,7 @@ func Check() *engine.Check {
 			"prototype -> WithConfig -> Execute through a heimdall.Context on the virtual clock, remotes in process, recording cache around the " +
 			"real in-memory cache or a Redis SET PX reference; state = (clock offset, recorded entries with store time and ttl); oracle (i) " +
 			"every accepted Set has 0 < ttl <= min(configured, remaining lifetime − documented leeway), none when that is <= 0 or the ttl is 0, " +
-			"(ii) answered without remote call at t => t <= end of validity and t − stored <= configured ttl, (iii) ttl 0 => never a hit. " +
+			"(ii) answered without remote call at t => t <= end of validity and t − stored <= configured ttl, (iii) ttl 0 => never a hit, (iv) a token is never verified with a key whose certificate has expired, also when the key was just fetched. " +
 			"A history is non-trivial if its last request was answered from cache or stored an entry.",
 		Assumptions: []string{
 			"remotes are pure functions of the request and the virtual time: the presented credential / served certificate has the fixed expiry " +
